@@ -396,3 +396,17 @@ def r7_eta_constructor(text):
         text = text[:mo.start()] + '.%s(|vx_x| %s(vx_x))' % (mo.group(1), text[mo.start(2):mo.end(2)]) + text[mo.end():]
         fired += 1
     return text, fired
+
+
+def r3_flatten_paths(text):
+    """R3p: the generated file is one flat module, so `crate::` / `super::` / `self::` module prefixes of items are
+    dropped (`super::internal_observer::ObserverState::InUse` -> `ObserverState::InUse`, `crate::rc_thin_ptr_eq(` ->
+    `rc_thin_ptr_eq(`).  std/core/alloc paths are left alone."""
+    m = mask(text)
+    out, last, fired = [], 0, 0
+    for mo in re.finditer(r'\b(?:crate|super|self)::(?:[a-z_][a-z0-9_]*::)*(?=[A-Za-z_])', m):
+        out.append(text[last:mo.start()])
+        last = mo.end()
+        fired += 1
+    out.append(text[last:])
+    return ''.join(out), fired
